@@ -46,7 +46,7 @@ func envelope(payload string) []byte {
 // ---- history --------------------------------------------------------------------------
 
 type step struct {
-	Op      string // start-cat | start-tail | drain | cancel | probe
+	Op      string // start-cat | start-tail | drain | cancel | probe | rotate
 	Files   int
 	Session int
 	Glob    bool
@@ -61,6 +61,20 @@ type history struct {
 func genHistory(t *rapid.T) history {
 	h := history{L: rapid.SampledFrom([]int{1, 1, 2, 3}).Draw(t, "L"), LT: rapid.SampledFrom([]int{1, 2}).Draw(t, "LT")}
 	n := rapid.IntRange(2, 10).Draw(t, "nsteps")
+	// now and then: a followed file is rotated away (removed) while other follows queue behind it
+	// (rapid's integer draws are heavily biased towards the lower bound, so the rate is made of fair coin flips)
+	flips := 5 // 1 in 32
+	if lib.Thorough() {
+		flips = 2
+	}
+	rot := true
+	for i := 0; i < flips; i++ {
+		rot = rapid.Bool().Draw(t, "rotation") && rot
+	}
+	if rot {
+		h.Steps = append(h.Steps, step{Op: "start-tail", Files: h.LT}, step{Op: "start-tail", Files: rapid.IntRange(1, 2).Draw(t, "queued")}, step{Op: "rotate", Session: 0})
+		n = rapid.IntRange(2, 5).Draw(t, "nsteps-after")
+	}
 	for i := 0; i < n; i++ {
 		var s step
 		switch rapid.IntRange(0, 9).Draw(t, "opk") {
@@ -68,6 +82,9 @@ func genHistory(t *rapid.T) history {
 			s = step{Op: "start-cat", Files: rapid.IntRange(1, 3*h.L).Draw(t, "files"), Glob: rapid.IntRange(0, 2).Draw(t, "glob") == 0}
 		case 3:
 			s = step{Op: "start-tail", Files: rapid.IntRange(1, 2*h.LT).Draw(t, "tfiles")}
+			if len(h.Steps) > 0 && h.Steps[len(h.Steps)-1].Op == "cancel" && rapid.Bool().Draw(t, "one") {
+				s.Files = 1
+			}
 		case 4, 5:
 			s = step{Op: "drain", Session: rapid.IntRange(0, 20).Draw(t, "which")}
 		case 6, 7, 8:
@@ -163,6 +180,7 @@ func evalHistory(h history) lib.Outcome {
 		}
 		return false
 	}
+	rotated := false
 	fail := func(format string, a ...interface{}) lib.Outcome {
 		o.Fail = fmt.Sprintf(format, a...)
 		o.Trace = trace
@@ -200,7 +218,13 @@ func evalHistory(h history) lib.Outcome {
 			if wantTail > h.LT {
 				wantTail = h.LT
 			}
-			ok := catOK && tl == wantTail && len(catLimiter) == c && len(tailLimiter) == tl
+			tailOK := tl == wantTail && len(tailLimiter) == tl
+			if rotated {
+				// a follow whose file was rotated away keeps retrying: whether it keeps its slot meanwhile is not prescribed,
+				// only the limit itself is
+				tailOK = len(tailLimiter) <= h.LT
+			}
+			ok := catOK && tailOK && len(catLimiter) == c
 			if ok {
 				stable++
 				if stable >= 3 {
@@ -310,6 +334,28 @@ func evalHistory(h history) lib.Outcome {
 				s.h.Shutdown()
 				s.ended = true
 			}
+		case "rotate":
+			if s := pick(st.Session, func(s *session) bool { return s.kind == "tail" && !s.ended }); s != nil {
+				open := openUnder(dir)
+				for _, f := range s.files {
+					if open[f] {
+						os.Remove(f)
+						rotated = true
+						o.Classes = append(o.Classes, "followed-file-rotated-away")
+						break
+					}
+				}
+				if rotated {
+					// the follower checks for truncation / removal every 3 s, then retries every 2 s
+					end := time.Now().Add(3500 * time.Millisecond)
+					for time.Now().Before(end) {
+						if _, tl := count(); tl > h.LT {
+							return fail("step %d (rotate): %d followed files are open at once, the limit is %d", i, tl, h.LT)
+						}
+						time.Sleep(20 * time.Millisecond)
+					}
+				}
+			}
 		case "probe":
 			// only meaningful when nothing is pending: then exactly L fresh files must be able to open
 			if blocked("cat") == 0 && !drainingLeft() {
@@ -332,6 +378,7 @@ func evalHistory(h history) lib.Outcome {
 			s.ended = true
 		}
 	}
+	rotated = false // every follow is cancelled now: all slots must be back, exactly
 	if r := settle(len(h.Steps), "wind-down"); r != nil {
 		return *r
 	}
@@ -341,6 +388,15 @@ func evalHistory(h history) lib.Outcome {
 	}
 	ps.h.Shutdown()
 	ps.ended = true
+	pt := startSession("tail", h.LT, false)
+	if r := settle(len(h.Steps)+2, "final-probe-tail"); r != nil {
+		return *r
+	}
+	pt.h.Shutdown()
+	pt.ended = true
+	if r := settle(len(h.Steps)+3, "after-final-probes"); r != nil {
+		return *r
+	}
 	o.NonTrivial = cancelledQueued
 	if cancelledQueued {
 		o.Classes = append(o.Classes, "cancelled-a-queued-reader-while-another-reads")
